@@ -55,3 +55,4 @@ let run_lexical = run_with EvalIO.run_eval_lexical
 let run_typing = run_with EvalIO.run_typing
 let run_strat = run_with EvalIO.run_strat
 let run_doc = run_with EvalIO.run_doc
+let run_doc_base = run_with EvalIO.run_doc_base
